@@ -1,6 +1,7 @@
 package main
 
 import (
+	"sort"
 	"fmt"
 	"go/token"
 	"go/types"
@@ -503,20 +504,49 @@ func checkPullAllowlistCompile(c *Ctx, rule string) {
 func checkTokenProvenance(c *Ctx, rule string) {
 	p := c.P
 	n := 0
+	isCtor := func(ci ssa.CallInstruction) bool {
+		cf := ci.Common().StaticCallee()
+		return cf != nil && cf.Name() == "BearerTokenAuthorizer" && IsModuleFunc(cf)
+	}
+	// The list may be built by a helper of the package: each construction site is examined in the view of its own
+	// function and in the views of the functions it is expanded into; one view in which the construction of the list
+	// is visible and clean decides it.
+	type occ struct {
+		fn *ssa.Function
+		ci ssa.CallInstruction
+	}
+	var order []ssa.Instruction
+	occs := map[ssa.Instruction][]occ{}
 	for _, fn := range p.FuncsInPkg("app") {
-		for _, ci := range allCalls(fn, func(ci ssa.CallInstruction) bool {
-			cf := ci.Common().StaticCallee()
-			return cf != nil && cf.Name() == "BearerTokenAuthorizer" && IsModuleFunc(cf)
-		}) {
-			n++
-			arg := ci.Common().Args[0]
-			apps := appendSitesOf(arg, fn)
-			key := fmt.Sprintf("app.%s:%s(tokens)#%d", fn.Name(), strings.TrimPrefix(FuncName(ci.Common().StaticCallee()), ""), n)
+		if fn.Parent() != nil {
+			continue
+		}
+		v := p.View(fn)
+		for _, ci := range allCalls(v, isCtor) {
+			src := p.SourceInstr(ci)
+			if _, seen := occs[src]; !seen {
+				order = append(order, src)
+			}
+			occs[src] = append(occs[src], occ{v, ci})
+		}
+	}
+	sort.Slice(order, func(i, j int) bool { return order[i].Pos() < order[j].Pos() })
+	for _, src := range order {
+		n++
+		home := src.Parent()
+		key := fmt.Sprintf("app.%s:%s(tokens)#%d", home.Name(), FuncName(src.(ssa.CallInstruction).Common().StaticCallee()), n)
+		var firstWhy, firstPos string
+		decided := false
+		for _, o := range occs[src] {
+			arg := o.ci.Common().Args[0]
+			apps := appendSitesOf(arg, o.fn)
 			if len(apps) == 0 {
-				c.Fail(rule, key, p.InstrPos(ci), "cannot find how the token list is built")
+				if firstWhy == "" {
+					firstWhy, firstPos = "cannot find how the token list is built", p.InstrPos(o.ci)
+				}
 				continue
 			}
-			bad := false
+			bad := ""
 			for _, ap := range apps {
 				call := ap.(*ssa.Call)
 				elems, ok := varargElems(call.Call.Args[1])
@@ -526,15 +556,23 @@ func checkTokenProvenance(c *Ctx, rule string) {
 				for _, e := range elems {
 					ss := p.sourcesThroughWrappers(e, 0)
 					okSrc := allSourcesMatch(ss, func(s vsource) bool { return s.Kind == "call" && strings.Contains(s.Desc, "secrets.LoadRef#0") })
-					if !okSrc {
-						bad = true
-						c.Fail(rule, key, p.InstrPos(ap), "a token is added to the allowlist that is not the untouched result of secrets.LoadRef: "+sourcesString(ss))
+					if !okSrc && bad == "" {
+						bad = "a token is added to the allowlist that is not the untouched result of secrets.LoadRef: " + sourcesString(ss)
+						firstPos = p.InstrPos(ap)
 					}
 				}
 			}
-			if !bad {
-				c.Ok(rule, key, p.InstrPos(ci), fmt.Sprintf("%d append site(s), each adding secrets.LoadRef's result unchanged", len(apps)))
+			if bad != "" {
+				// the construction is visible here and it is not clean: that decides it
+				firstWhy = bad
+				break
 			}
+			c.Ok(rule, key, p.InstrPos(o.ci), fmt.Sprintf("%d append site(s), each adding secrets.LoadRef's result unchanged", len(apps)))
+			decided = true
+			break
+		}
+		if !decided {
+			c.Fail(rule, key, firstPos, firstWhy)
 		}
 	}
 	c.Floor(rule, "authorizer_constructions", n, 5)
